@@ -139,6 +139,10 @@ def compat_u2s(u):
         return str(u)
 
 
+# The nesting depth at which marshal.c gives up.
+MAX_MARSHAL_STACK_DEPTH = 2000
+
+
 class _VersionIndependentUnmarshaller:
     def __init__(self, fp, magic_int, bytes_for_s, code_objects={}):
         """
@@ -179,6 +183,10 @@ class _VersionIndependentUnmarshaller:
         self.is_graal = False
         self.is_pypy = False
 
+        # How deeply objects may nest; see load().
+        self.depth = 0
+        self.max_depth = MAX_MARSHAL_STACK_DEPTH
+
     def load(self):
         """
         ``marshal.load()`` written in Python. When the Python bytecode magic loaded is the
@@ -193,6 +201,19 @@ class _VersionIndependentUnmarshaller:
             self.internStrings = []
         if self.marshal_version < 3:
             assert self.internObjects == []
+
+        # Like marshal.c, refuse data that nests too deeply rather than run out
+        # of stack. We recurse in Python, two frames a nesting level, so the
+        # bound also has to fit in what is left of this interpreter's
+        # recursion limit.
+        frames_in_use = 0
+        frame = sys._getframe()
+        while frame is not None:
+            frames_in_use += 1
+            frame = frame.f_back
+        headroom = sys.getrecursionlimit() - frames_in_use - 50
+        self.depth = 0
+        self.max_depth = max(1, min(MAX_MARSHAL_STACK_DEPTH, headroom // 2))
 
         return self.r_object()
 
@@ -238,7 +259,13 @@ class _VersionIndependentUnmarshaller:
         if marshal_type in UNMARSHAL_DISPATCH_TABLE:
             func_suffix = UNMARSHAL_DISPATCH_TABLE[marshal_type]
             unmarshal_func = getattr(self, "t_" + func_suffix)
-            return unmarshal_func(save_ref, bytes_for_s)
+            self.depth += 1
+            if self.depth > self.max_depth:
+                raise ValueError("bad marshal data (object nested too deeply)")
+            try:
+                return unmarshal_func(save_ref, bytes_for_s)
+            finally:
+                self.depth -= 1
         else:
             try:
                 sys.stderr.write(
